@@ -57,6 +57,15 @@ def run(ctx):
         "Grid.from_topology in one of three access orders and the recorded edge tables are judged by TLC "
         "(JudgeMesh.tla). Non-trivial = distinct table with >= 2 faces or a face whose size differs from the row width."
     )
+    # the same tables stored wider than their largest face ("any padding layout": every row padded)
+    wide = []
+    for k, c in enumerate(cases):
+        if k % (3 if thorough else 7) == 0:
+            w = dict(c)
+            w["id"] = c["id"] + ":w%d" % (1 + k % 2)
+            w["extra_width"] = 1 + k % 2
+            wide.append(w)
+    cases += wide
     large = large_cases(rng, 40 if thorough else 10, 14 if thorough else 8)
     cases += large
     recs = pmap(mc.record_case, cases)
